@@ -3,7 +3,7 @@ import re
 import vlib
 from vlib import coq_bytes, coq_opt
 
-IMPORTS = ["lib.Bytes", "model.Range"]
+IMPORTS = ["lib.Bytes", "model.Range", "model.Timestamp", "model.CopySource"]
 EDGES = [0, 1, 2, 9, 10, 11, 12, 99, 4095, 4096, 2**31 - 1, 2**31, 2**32 - 1, 2**32, 2**53, 2**63 - 2, 2**63 - 1, 2**63,
          2**63 + 1, 2**64 - 2, 2**64 - 1]
 EDGES_OVER = [2**64, 2**64 + 1, 10**20, 10**25]
@@ -135,7 +135,7 @@ def run_range(ctx):
     strings = gen_range_strings(ctx)
     cases = [dict(op="range_parse", s=s.hex()) for s in strings]
     impl = [r.get("out", "panic:" + r.get("panic", "")) for r in vlib.run_impl("c14", cases)]
-    model = [m.decode() for m in vlib.run_model("C14", IMPORTS, ["show_parse " + coq_bytes(s) for s in strings])]
+    model = [m.decode() for m in vlib.run_model("C14", IMPORTS, ["show_range_parse " + coq_bytes(s) for s in strings])]
     def oracle(c, i):
         exp = rfc_parse_oracle(bytes.fromhex(c["s"]))
         return None if exp is None else (i == exp)
@@ -149,7 +149,7 @@ def run_range(ctx):
     rs = gen_ranges(ctx)
     cases = [dict(op="range_check", r=jrange(r), full=str(full)) for r, full in rs]
     impl = [r.get("out", "panic:" + r.get("panic", "")) for r in vlib.run_impl("c14", cases)]
-    model = [m.decode() for m in vlib.run_model("C14", IMPORTS, ["show_check %s %d" % (coq_range(r), full) for r, full in rs])]
+    model = [m.decode() for m in vlib.run_model("C14", IMPORTS, ["show_range_check %s %d" % (coq_range(r), full) for r, full in rs])]
     orc = {id(c): rfc_interval(r, full) for c, (r, full) in zip(cases, rs)}
     vlib.diff_cases(ctx, cases, impl, model, "range_check", lambda c, i: i == orc[id(c)])
     ctx.count("range_check.satisfiable", sum(1 for i in impl if i.startswith("ok")))
@@ -164,13 +164,181 @@ def run_range(ctx):
     vlib.diff_cases(ctx, cases, impl, model, "range_print")
 
 
+# ---------------------------------------------------------------- timestamps
+import datetime
+
+def civil(t_ns):
+    """python reference: instant (ns) -> (y, m, d, hh, mm, ss, ns) in UTC, by the proleptic Gregorian calendar of datetime"""
+    secs, ns = divmod(t_ns, 10**9)
+    dt = datetime.datetime(1970, 1, 1, tzinfo=datetime.timezone.utc) + datetime.timedelta(seconds=secs)
+    return dt, ns
+
+
+def ref_format(fmt, t_ns):
+    dt, ns = civil(t_ns)
+    if fmt == "DateTime":
+        return "%04d-%02d-%02dT%02d:%02d:%02d.%03dZ" % (dt.year, dt.month, dt.day, dt.hour, dt.minute, dt.second, ns // 10**6)
+    if fmt == "HttpDate":
+        return "%s, %02d %s %04d %02d:%02d:%02d GMT" % (["Mon", "Tue", "Wed", "Thu", "Fri", "Sat", "Sun"][dt.weekday()], dt.day,
+                ["Jan", "Feb", "Mar", "Apr", "May", "Jun", "Jul", "Aug", "Sep", "Oct", "Nov", "Dec"][dt.month - 1], dt.year, dt.hour, dt.minute, dt.second)
+    ms = abs(t_ns) // 10**6
+    whole, frac = divmod(ms, 1000)
+    s = ("-" if t_ns < 0 and ms else "") + str(whole)
+    if frac:
+        s += "." + ("%03d" % frac).rstrip("0")
+    return s
+
+
+def run_timestamps(ctx):
+    rng = ctx.rng
+    Y1 = -62135596800   # 0001-01-01
+    Y9999 = 253402300799
+    grid = [0, 1, -1, 86399, 86400, -86400, 951782400, 951868800, 1582934400, 1583020800, 4102444800, 1515531081, Y1, Y1 + 86400 * 365, Y9999, Y9999 - 86400,
+            946684799, 946684800, 68169600, -2208988800, 1e9, 2**31 - 1, 2**31, 2**32]
+    insts = []
+    for s_ in grid:
+        for ms in (0, 1, 520, 999):
+            insts.append(int(s_) * 10**9 + ms * 10**6)
+    for _ in range(60 if ctx.quick else 3000):
+        insts.append(rng.range(Y1, Y9999) * 10**9 + rng.below(1000) * 10**6 + (rng.below(10**6) if rng.chance(1, 4) else 0))
+    offsets = [0, 3600, -3600, 8 * 3600, -(23 * 3600 + 59 * 60), 23 * 3600 + 59 * 60, 15 * 60, 5 * 3600 + 30 * 60, -(9 * 3600 + 45 * 60)]
+    cases, exprs, exps = [], [], []
+    FM = {"DateTime": "DateTime", "HttpDate": "HttpDate", "EpochSeconds": "EpochSeconds"}
+    for t in insts:
+        for fmt in FM:
+            off = rng.choice(offsets)
+            secs = t // 10**9
+            if not (Y1 + 86400 <= secs + off <= Y9999 - 86400) or not (Y1 <= secs <= Y9999):
+                off = 0
+            if fmt == "EpochSeconds":
+                t = t // 10**6 * 10**6      # the f64 printer is modelled (and the property quantified) at millisecond resolution
+            cases.append(dict(op="ts_format", fmt=fmt, nanos=str(t), offset=off))
+            exprs.append("show_format_ts %s (%d)%%Z" % (fmt, t))
+            # the instant must be preserved whatever the offset it was expressed in
+            exps.append(ref_format(fmt, t))
+    impl = [x.get("out", "panic:" + x.get("panic", "")) for x in vlib.run_impl("c14", cases)]
+    model = [m.decode() for m in vlib.run_model("C14", IMPORTS, exprs, shard=400)]
+    ex = {id(c): e for c, e in zip(cases, exps)}
+    vlib.diff_cases(ctx, cases, impl, model, "ts_format", lambda c, i: i == ex[id(c)], nontrivial=lambda c, i: True)
+    ctx.sample(dict(op="ts_format", case=cases[7], impl=impl[7], model=model[7]))
+    # parse: what format produced (round trip), other offsets / spellings of the same instant, near-grammar strings
+    texts = []
+    for c, i in zip(cases, impl):
+        if i != "err" and not i.startswith("panic"):
+            texts.append((c["fmt"], i, int(c["nanos"])))
+    texts = texts[:: (1 if ctx.quick else 3)]
+    pc, pe, pexp = [], [], []
+    def addp(fmt, text, expect):
+        pc.append(dict(op="ts_parse", fmt=fmt, s=text.encode().hex())); pe.append("show_parse_ts %s %s" % (fmt, coq_bytes(text.encode()))); pexp.append(expect)
+    for fmt, text, t in texts:
+        prec = 10**6 if fmt != "HttpDate" else 10**9
+        addp(fmt, text, str(t // prec * prec))
+        if fmt == "DateTime":
+            dt, ns = civil(t)
+            for off in rng.shuffle(offsets)[:2]:
+                if not (Y1 + 86400 <= t // 10**9 + off <= Y9999 - 86400):
+                    continue
+                loc = civil(t + off * 10**9)[0]
+                sign = "+" if off >= 0 else "-"
+                txt = "%04d-%02d-%02dT%02d:%02d:%02d.%03d%s%02d:%02d" % (loc.year, loc.month, loc.day, loc.hour, loc.minute, loc.second, ns // 10**6, sign, abs(off) // 3600, abs(off) % 3600 // 60)
+                addp(fmt, txt, str(t // 10**6 * 10**6))
+    near = ["", "2020-01-01T00:00:00Z", "2020-01-01t00:00:00z", "2020-01-01 00:00:00Z", "2020-01-01T00:00:00", "2020-01-01T00:00:00.Z", "2020-01-01T00:00:00.123456789123Z",
+            "2020-01-01T24:00:00Z", "2020-01-01T23:59:60Z", "2020-02-30T00:00:00Z", "2021-02-29T00:00:00Z", "2020-02-29T00:00:00Z", "2020-13-01T00:00:00Z", "2020-1-01T00:00:00Z",
+            "20200101T000000Z", "2020-01-01T00:00:00+0800", "2020-01-01T00:00:00+24:00", "2020-01-01T00:00:00+23:60", "2020-01-01T00:00:00-00:00", "0000-01-01T00:00:00Z",
+            "9999-12-31T23:59:59.999Z", "9999-12-31T23:59:59-01:00", "0000-01-01T00:00:00+01:00", "+2020-01-01T00:00:00Z", "2020-01-01T00:00:00Z ", " 2020-01-01T00:00:00Z",
+            "2020-01-01T00:00:00.5+05:30", "2020-01-01T00:00:00,5Z"]
+    for x in near:
+        addp("DateTime", x, None)
+    for x in ["Wed, 21 Oct 2015 07:28:00 GMT", "Thu, 21 Oct 2015 07:28:00 GMT", "wed, 21 Oct 2015 07:28:00 GMT", "Wed, 21 oct 2015 07:28:00 GMT", "Wed, 1 Oct 2015 07:28:00 GMT",
+              "Wed, 21 Oct 2015 7:28:00 GMT", "Wed, 21 Oct 2015 07:28:00 UTC", "Wed, 21 Oct 2015 07:28:00", "Wed, 31 Feb 2015 07:28:00 GMT", "Wed, 21 Oct 15 07:28:00 GMT",
+              "Wednesday, 21-Oct-15 07:28:00 GMT", "Wed, 21 Oct 2015 24:00:00 GMT", "Wed, 21 Oct 2015 07:28:00 GMT ", "Sun, 02 Jan 2000 20:34:56.000 GMT", "Mon, 01 Jan 0000 00:00:00 GMT"]:
+        addp("HttpDate", x, None)
+    for x in ["0", "1515531081", "1515531081.1234", "1515531081.", ".5", "1.5", "-1.5", "-0", "-0.5", "+5", "1e3", "1.0000000001", "1.999999999", "1.4294967295", "1.42949672960",
+              "253402300799", "253402300800", "-62135596800", "-377705116800", "-377705116801", "9223372036854775807", "9223372036854775808", "1.-5", "1.+5", "--1", "1 ", " 1", "0x10", "1_000"]:
+        addp("EpochSeconds", x, None)
+    impl = [x.get("out", "panic:" + x.get("panic", "")) for x in vlib.run_impl("c14", pc)]
+    model = [m.decode() for m in vlib.run_model("C14", IMPORTS, pe, shard=400)]
+    ex = {id(c): e for c, e in zip(pc, pexp)}
+    vlib.diff_cases(ctx, pc, impl, model, "ts_parse", lambda c, i: None if ex[id(c)] is None else i == ex[id(c)],
+                    show=lambda c: dict(op="ts_parse", fmt=c["fmt"], text=bytes.fromhex(c["s"]).decode("latin1")), nontrivial=lambda c, i: True)
+    ctx.count("ts_parse.accepted", sum(1 for i in impl if i != "err")); ctx.count("ts_parse.rejected", impl.count("err"))
+
+
+# ---------------------------------------------------------------- copy sources
+def run_copy(ctx):
+    rng = ctx.rng
+    from checks.c12 import gen_key
+    from urllib.parse import quote
+    vals = []
+    for _ in range(80 if ctx.quick else 2500):
+        bk = rng.choice(["my-bucket", "a.b.c", "abc"])
+        key = gen_key(rng)[:200]
+        ver = rng.choice([None, None, "v1", "3/L4kqtJlcpXroDTDmJ+rmSpXd3dIbrHY+MTRCxf3vjVBH40Nr8X8gdRQBpUMLUo", "a b", "x=y&z", "é"])
+        if key == "":
+            key = "k"
+        vals.append((bk, key, ver))
+    # format, then parse what was formatted: must name the same bucket, key and version
+    fc = [dict(op="copy_format", bucket=b_.encode().hex(), key=k.encode().hex(), version=None if v is None else v.encode().hex()) for b_, k, v in vals]
+    fimpl = [x.get("out", "panic") for x in vlib.run_impl("c14", fc)]
+    fmodel = [m.hex() for m in vlib.run_model("C14", IMPORTS, ["format_copy_source %s %s %s" % (coq_bytes(b_.encode()), coq_bytes(k.encode()),
+              "None" if v is None else "(Some %s)" % coq_bytes(v.encode())) for b_, k, v in vals], shard=300)]
+    vlib.diff_cases(ctx, fc, fimpl, fmodel, "copy_format", nontrivial=lambda c, i: True)
+    headers = [(bytes.fromhex(h), (b_, k, v)) for h, (b_, k, v) in zip(fimpl, vals) if re.fullmatch(r"[0-9a-f]*", h)]
+    # what a client (AWS SDK style) writes: URL-encoded key, optional leading slash
+    for b_, k, v in vals[:: 2]:
+        h = ("/" if rng.chance(1, 2) else "") + b_ + "/" + quote(k, safe="/") + ("?versionId=" + quote(v, safe="") if v is not None else "")
+        headers.append((h.encode(), (b_, k, v)))
+    for h in [b"", b"bucket", b"/bucket", b"bucket/", b"/bucket/key", b"bucket/key?versionId=", b"bucket/key?versionId", b"bucket/key?foo=bar", b"bucket/a%3Fb", b"bucket/a%2Fb",
+              b"bucket/a?b?versionId=1", b"bucket/%ff", b"bucket/%zz", b"Bad_Bucket/key", b"bucket/" + b"k" * 1025, b"bucket/key?versionId=%ff", b"bucket/a+b", b"bucket/a%2Bb", b"bucket/a%20b",
+              b"%2Fbucket/key", b"bucket%2Fkey", b"//bucket/key", b"arn:aws:s3:us-west-2:123456789012:accesspoint/my-ap/object/k"]:
+        headers.append((h, None))
+    pc = [dict(op="copy_parse", s=h.hex()) for h, _ in headers]
+    pimpl = [x.get("out", "panic") for x in vlib.run_impl("c14", pc)]
+    pmodel = [m.decode() for m in vlib.run_model("C14", IMPORTS, ["show_copy (parse_copy_source %s)" % coq_bytes(h) for h, _ in headers], shard=300)]
+    ex = {id(c): e for c, (_, e) in zip(pc, headers)}
+    def oracle(c, i):
+        e = ex[id(c)]
+        if e is None:
+            return None
+        b_, k, v = e
+        if len(k.encode()) > 1024:
+            return i == "err:InvalidKey"
+        return i == "ok:%s|%s|%s" % (b_.encode().hex(), k.encode().hex(), "-" if v is None else v.encode().hex())
+    vlib.diff_cases(ctx, pc, pimpl, pmodel, "copy_parse", oracle, show=lambda c: dict(op="copy_parse", header=bytes.fromhex(c["s"]).decode("latin1")), nontrivial=lambda c, i: True)
+    ctx.sample(dict(op="copy_parse", header=headers[3][0].decode("latin1"), impl=pimpl[3], model=pmodel[3]))
+
+
+def run_mime(ctx):
+    """content types: external crate (mime); only the round trip parse(to_string(m)) == m is checked (no model)"""
+    ms = ["text/plain", "application/octet-stream", "text/plain; charset=utf-8", "TEXT/PLAIN", "multipart/form-data; boundary=xyz", "image/svg+xml",
+          "application/json;charset=UTF-8", "text/plain; charset=\"utf-8\"", "a/b; c=d; e=\"f g\"", "application/x-www-form-urlencoded", "*/*", "text/*",
+          "x", "/", "a/", "text/plain;", "text/plain; charset", "te xt/plain", "text/plain; a=b c"]
+    cases = [dict(op="mime", s=m.encode().hex()) for m in ms]
+    impl = [x.get("out", "panic") for x in vlib.run_impl("c14", cases)]
+    for m, i in zip(ms, impl):
+        ctx.cov["evaluations"] += 1
+        ctx.nontrivial(("mime", m, i))
+        if i.startswith("ok:") and not i.endswith(":true"):
+            ctx.violation(dict(stage="mime", kind="a content type does not survive encoding and decoding", text=m, impl=i))
+        if i.startswith("panic"):
+            ctx.violation(dict(stage="mime", kind="panic", text=m))
+
+
 def run(ctx):
     ctx.cov["rule"] = ("Range: every header string bytes=F-L / bytes=F- / bytes=-S for F,L,S <= 12, the numeric edges "
                        "(2^31, 2^32, 2^53, 2^63, 2^64 +-1, > u64), hand-written near-grammar strings and seeded random "
                        "single-byte mutations; every (range, length) with all values <= 12 plus the edge grid plus random "
-                       "values of 4..64 bits. A case is non-trivial when it starts with 'bytes=' or is accepted; distinct = "
+                       "values of 4..64 bits. Timestamps: instants on a grid (epoch, leap days, year 1 and 9999, i32/u32 edges) x {0,1,520,999} ms "
+                       "plus seeded random instants in years 1..9999, each formatted in the three formats from a value expressed in a "
+                       "random UTC offset (must print the same instant), parsed back (identity up to the precision), RFC 3339 texts with "
+                       "other offsets, and near-grammar strings. Copy sources: (bucket, key over a special-character alphabet, version) "
+                       "formatted and parsed back, SDK-style URL-encoded headers, and malformed headers. Content types: parse/print/parse "
+                       "(external crate, no model). A case is non-trivial when it starts with 'bytes=' or is accepted; distinct = "
                        "distinct (input, implementation output) pairs.")
     r = ctx.coq(imports=IMPORTS)
     if not r["ok"]:
         ctx.violation(dict(stage="coq", kind="proof obligation or audit failed", issues=r["issues"]), has_input=False)
     run_range(ctx)
+    run_timestamps(ctx)
+    run_copy(ctx)
+    run_mime(ctx)
